@@ -97,7 +97,11 @@ def ctor_case(draw):
     c = draw(base_case(P))
     k = {'phi_2D_to_3D_admix': 1, 'phi_3D_to_4D': 2, 'phi_4D_to_5D': 3}.get(name, 0)
     fs = draw(simplex(k, q=(c['L'] - 1) if c['grid']['kind'] == 'uniform' else None))
-    return dict(c, name=name, fs=fs)
+    axis_grids = None
+    if name in ('phi_2D_to_3D_admix', 'phi_3D_to_4D', 'phi_4D_to_5D') and draw(st.integers(0, 3)) == 0:
+        # one grid per population, the new one included (same length)
+        axis_grids = [draw(G.grid_spec(min_pts=c['L'], max_pts=c['L'], kinds=('uniform', 'exponential', 'random'))) for _ in range(P + 1)]
+    return dict(c, name=name, fs=fs, axis_grids=axis_grids)
 
 
 def _nt(c, fs):
@@ -118,6 +122,10 @@ def r1(c, rec):
             out = f(xx, phi)
         elif name.startswith('phi_2D_to_3D_split'):
             out = f(xx, phi)
+        elif c.get('axis_grids'):
+            grids_all = [G.make_grid(g) for g in c['axis_grids']]
+            rec.label('one grid per population')
+            out = f(*([phi] + list(fs) + grids_all))
         else:
             out = f(*([phi] + list(fs) + [xx] * (P + 1)))
     require(np.array_equal(phi, phi0), '%s modified its input density' % name, func=name)
@@ -139,6 +147,14 @@ def r1(c, rec):
         full = [0.0, 1.0]
     else:
         full = list(fs) + [1.0 - sum(fs)]
+    if c.get('axis_grids'):
+        exp = A.add_population(phi, grids_all[:P], full, grids_all[P])
+        scale = np.abs(exp).max()
+        require_close(out, exp, max(tol_for(g) for g in grids_all), '%s vs explicit deposition (a different grid for each population)' % name, rec,
+                      key='constructor', atol=1e-12 * scale, func=name)
+        require_close(A.marginal(out, grids_all[P], P), phi, 1e-11, 'integrating the new population out of %s' % name, rec, key='remove-new',
+                      atol=1e-13 * np.abs(phi).max(), func=name)
+        return
     exp = A.add_population(phi, [xx] * P, full, xx)
     scale = np.abs(exp).max()
     require_close(out, exp, tol_for(xx), '%s vs explicit deposition' % name, rec, key='constructor', atol=1e-12 * scale, func=name)
@@ -159,7 +175,11 @@ def pulse_case(draw):
     P, dest, srcs = PULSES[name]
     c = draw(base_case(P))
     fs = draw(simplex(len(srcs), q=(c['L'] - 1) if c['grid']['kind'] == 'uniform' else None))
-    return dict(c, name=name, fs=fs)
+    # the pulse functions take one grid per population: in a quarter of the cases the grids differ (same length)
+    axis_grids = None
+    if draw(st.integers(0, 3)) == 0:
+        axis_grids = [draw(G.grid_spec(min_pts=c['L'], max_pts=c['L'], kinds=('uniform', 'exponential', 'random'))) for _ in range(P)]
+    return dict(c, name=name, fs=fs, axis_grids=axis_grids)
 
 
 @REG.relation('R2-pulses', strategy=pulse_case, quick=(1500, 16), thorough=(30000, 16))
@@ -177,16 +197,21 @@ def r2(c, rec):
                             'sum=1' if abs(sum(fs) - 1) < 1e-12 else 'sum<1'])
     work = phi.copy()
     f = getattr(PhiManip, name)
+    grids = [G.make_grid(g) for g in c['axis_grids']] if c.get('axis_grids') else [xx] * P
+    if c.get('axis_grids'):
+        rec.label('one grid per population')
     with dadi_call('%s with proportions %r' % (name, fs), func=name):
-        out = f(*([work] + list(fs) + [xx] * P))
+        out = f(*([work] + list(fs) + grids))
     require(out is work or np.shares_memory(out, work), '%s is documented to alter phi in place and return it, but returned a different array' % name, func=name)
     require(out.shape == phi.shape, 'shape changed', func=name)
-    exp = A.pulse(phi, [xx] * P, dest, full)
+    exp = A.pulse(phi, grids, dest, full)
     scale = np.abs(exp).max()
     # the interpolation fraction (z - z_lo)/(z_hi - z_lo) amplifies the round-off of the mixture frequency by 1/spacing
-    require_close(out, exp, tol_for(xx), '%s vs explicit pulse oracle' % name, rec, key='pulse', atol=1e-12 * scale, func=name)
+    tol = max(tol_for(g) for g in grids)
+    require_close(out, exp, tol, '%s vs explicit pulse oracle%s' % (name, ' (a different grid for each population)' if c.get('axis_grids') else ''), rec,
+                  key='pulse', atol=1e-12 * scale, func=name)
     # joint density of the other populations unchanged
-    require_close(A.marginal(out, xx, dest), A.marginal(phi, xx, dest), 1e-11, 'joint density of the other populations after %s' % name,
+    require_close(A.marginal(out, grids[dest], dest), A.marginal(phi, grids[dest], dest), 1e-11, 'joint density of the other populations after %s' % name,
                   rec, key='others-marginal', atol=1e-13 * np.abs(phi).max(), func=name)
     if all(v == 0 for v in fs):
         require_close(out, phi, 1e-12, '%s at proportion 0 is the identity' % name, rec, key='identity', atol=1e-300, func=name)
